@@ -304,9 +304,34 @@ class HsPart(Part):
         return "%s | cuts %s | first %s | ops %s" % (d, f[1] or "-", bytes(ints(f[2])).hex(), " / ".join(f[3:]))
 
 
+class ClientWindow(Part):
+    """client role: after CONNACK the send window of an MQTT 5 client is the Receive Maximum the server announced
+    (MQTT 3.1.1 client: the configured max_send) -- engine sink5 / sink3, role 1, whose first configuration field is
+    that value; the observation's third number is the window in force"""
+    has_oracle = False
+    NO_SHRINK_FIELDS = (0,)
+    vm_slice = 40
+
+    def py_oracle(self, case, obs):
+        if obs == "9999":
+            return "0,0"
+        want = int(case.split(";")[0].split(",")[0])
+        for f in obs.split(";"):
+            x = f.split(",")
+            if len(x) > 7 and x[7] == "1" and int(x[2]) != want % 65536:
+                return "0,7"
+            break
+        return "1"
+
+
 def parts(tier, rng):
     quick = tier == "quick"
     res = []
+    for eng in ("sink5", "sink3"):
+        res.append(ClientWindow("client-window-" + eng, eng,
+                                ["%d,1;1,1,1,0;1,2,1,0;4,1,1;2,1;2,2" % c for c in (1, 2, 3, 5, 15, 16, 17, 100, 1000, 65535)],
+                                shards=1, rule="client connections whose server announces Receive Maximum c "
+                                               "(v3: max_send c), two sends and an acknowledgement"))
     for name, fn in G.SUITES.items():
         if name == "cuts":
             cases = fn(rng, 300 if quick else 3000)
@@ -319,6 +344,8 @@ def parts(tier, rng):
 
 
 def replay_parts(rp):
+    if rp.get("engine", "hs").startswith("sink"):
+        return [ClientWindow("replay", rp["engine"], [rp["case"]], shards=1)]
     return [HsPart("replay", "hs", [rp["case"]], shards=1)]
 
 
